@@ -80,6 +80,8 @@ def persistent_query(c: dict, e, p, first):
 def check_cases(cases: list[dict], rep: Report, known: dict) -> None:
     ncs = []
     for c in cases:
+        if rep.stop():
+            break
         e = wire.build_raw(c["e"])
         p = wire.build_point(c["p"])
         for q in c.get("prior", []):          # earlier queries on the same object, at other points
